@@ -34,7 +34,11 @@ static void case_fac(ByteSource& in, CaseInfo& ci) {
   uint64_t n = gen_n(in, 120, cap, {20, 21, 25, 33, 34, 64, 65, FAC_DSC_THRESHOLD, FAC_ODD_THRESHOLD, 1000, 2 * FAC_DSC_THRESHOLD}); uint64_t m = 1;
   Int e;
   if (f == 0) e = ref_mfac(n, 1); else if (f == 1) e = ref_mfac(n, 2);
-  else if (f == 2) { unsigned k = in.pick({3, 2, 2}); m = k == 0 ? in.range(1, 12) : k == 1 ? (n ? n - 1 + in.range(0, 2) : 1) : in.logrange(1, 2 * n + 5); if (m == 0) m = 1; e = ref_mfac(n, m); }
+  else if (f == 2) { unsigned k = in.pick({6, 4, 4, 3}); m = k == 0 ? in.range(1, 12) : k == 1 ? (n ? n - 1 + in.range(0, 2) : 1) : in.logrange(1, 2 * n + 5);
+    if (k == 3) {   // steps (and arguments) at the ends of the unsigned long range: the product has at most a handful of factors, every comparison in the size shortcuts is at its limit
+      static const uint64_t MB[] = {~0ull, ~0ull - 1, ~0ull - 2, 1ull << 63, (1ull << 63) - 1, (1ull << 63) + 1, 1ull << 32, (1ull << 32) - 1}; m = MB[in.range(0, 7)]; ci.label("mfac:step_at_type_boundary");
+      if (in.flag()) { n = in.flag() ? ~0ull - in.range(0, 6) : (1ull << 63) + (uint64_t)in.srange(-3, 3); uint64_t dv = in.range(1, 5); m = n / dv + (uint64_t)in.srange(-2, 2); if (m < n / 6 || m == 0) m = n / dv; ci.label("mfac:argument_at_type_boundary"); } }
+    if (m == 0) m = 1; e = ref_mfac(n, m); }
   else e = ref_primorial(n);
   ci.label(names[f]); ci.nontrivial = e.size() >= 2; ci.d("%s n=%llu m=%llu", names[f], (unsigned long long)n, (unsigned long long)m);
   if (f == 2 && m > n) ci.label("mfac:m_gt_n"); if (n >= FAC_DSC_THRESHOLD) ci.label("fac:ge_dsc_threshold");
